@@ -240,7 +240,7 @@ def run_plan(ctx, tier, seed, want_flavors=None):
         cid = 0
         for g in p.groups:
             vrng = gen_rng(seed, "values/%s/%d" % (p.name, g.gid))
-            vs, space = value_sets(g, vrng, 150 if quick else 600)
+            vs, space = value_sets(g, vrng, 50 if quick else 400, 160 if quick else 400)
             info["spaces"]["%s/g%d" % (p.name, g.gid)] = dict(op=g.op.name, dims=repr(g.dims), value_sets=len(vs), primary_space=space,
                                                                enumerated=sum(1 for _, w in vs if w == "enum"))
             for (v, why) in vs:
@@ -252,10 +252,32 @@ def run_plan(ctx, tier, seed, want_flavors=None):
                     cases.append((str(cid), "%d %s %s" % (cid, inst.name, toks)))
                     meta[str(cid)] = (g, inst, v, why)
         cases_by_prog[p.name] = (cases, meta)
+    cut_short = {}
     for p, fl, t in tl:
         cases, meta = cases_by_prog[p.name]
         env = {"ASAN_OPTIONS": ASAN_NOLEAK} if fl == "nostl" else None
-        results, crashes, touts = R.run_cases(t.binary, cases, env_extra=env)
+        # phase 1: a few cases per instance; an instance that keeps dying is not fed its remaining cases
+        # (every death costs a process restart; the defect is already witnessed)
+        per = {}
+        first, rest = [], []
+        for cid, line in cases:
+            nm_ = meta[cid][1].name
+            per[nm_] = per.get(nm_, 0) + 1
+            (first if per[nm_] <= 8 else rest).append((cid, line))
+        results, crashes, touts = R.run_cases(t.binary, first, env_extra=env)
+        died = {}
+        for c in crashes:
+            if c.case_id in meta:
+                died[meta[c.case_id][1].name] = died.get(meta[c.case_id][1].name, 0) + 1
+        crashy = {k for k, v in died.items() if v >= 2}
+        if crashy:
+            cut_short["%s[%s]" % (p.name, fl)] = sorted(crashy)
+        rest2 = [(cid, line) for cid, line in rest if meta[cid][1].name not in crashy]
+        skipped = {cid for cid, line in rest if meta[cid][1].name in crashy}
+        r2, c2, t2 = R.run_cases(t.binary, rest2, env_extra=env)
+        results.update(r2)
+        crashes += c2
+        touts += t2
         crashed = {c.case_id: c for c in crashes}
         for t_ in touts:
             ctx.inconc("timeout in %s[%s] case %s" % (p.name, fl, t_))
@@ -264,6 +286,8 @@ def run_plan(ctx, tier, seed, want_flavors=None):
                 ctx.inconc("%s[%s] died outside a case: %s" % (p.name, fl, c.kind()))
         missing = 0
         for cid, line in cases:
+            if cid in skipped:
+                continue
             g, inst, v, why = meta[cid]
             r = Rec()
             r.prog, r.flavor, r.g, r.inst, r.vals, r.why, r.line = p.name, fl, g, inst, v, why, line
@@ -277,6 +301,7 @@ def run_plan(ctx, tier, seed, want_flavors=None):
             recs.append(r)
         if missing:
             ctx.inconc("%s[%s]: %d cases produced no record" % (p.name, fl, missing))
+    info["instances_cut_short_after_repeated_crashes"] = cut_short
     return recs, info
 
 
@@ -336,14 +361,20 @@ def parse_index_traits(t):
     return d
 
 
+def has_exc(toks):
+    return toks is not None and "EXC" in toks
+
+
 def parse_index_record(toks):
     t = Tok(toks)
     if t.peek() == "SKIP":
         return None
-    t.expect("RES")
-    res = parse_any(t)
     t.expect("TR")
     tr = parse_index_traits(t)
+    if t.peek() == "EXC":
+        return ("EXC", " ".join(t.t[t.p + 1:t.p + 3])), tr
+    t.expect("RES")
+    res = parse_any(t)
     return res, tr
 
 
@@ -504,9 +535,9 @@ def judge_c09(ctx, recs, info):
             continue
         if r.toks is None:
             continue
-        if r.toks and r.toks[0] == "EXC":
+        if has_exc(r.toks):
             ctx.ev()
-            ctx.violation("%s:%s:deviates" % (o.name, cc), "%s(%s) in configuration %s [%s] threw %s" % (o.name, vals_brief(r), r.inst.cfg, r.flavor, " ".join(r.toks[1:3])), det)
+            ctx.violation("%s:%s:deviates" % (o.name, cc), "%s(%s) in configuration %s [%s] threw %s" % (o.name, vals_brief(r), r.inst.cfg, r.flavor, " ".join(r.toks[r.toks.index("EXC") + 1:][:2])), det)
             continue
         try:
             if o.family == "view":
@@ -537,25 +568,25 @@ def judge_c09(ctx, recs, info):
                 ctx.violation("%s:%s:deviates" % (o.name, cc),
                               "%s(%s): configuration %s [%s] %s differs in %s: gives %s, reference (NumPy) %s" % (o.name, vals_brief(r), r.inst.cfg, r.flavor, where, sy, str(g_)[:200], str(exp)[:200]), det)
         key = (r.prog, r.inst.name, r.line.split(" ", 1)[1])
-        by_case.setdefault(key, []).append((r.flavor, r.toks, r))
+        by_case.setdefault(key, []).append((r.flavor, got, r))
         nontriv = exp[0] in ("V", "A") and len(exp[-1]) > 1
         if nontriv or exp[0] == "N":
             ctx.seen((o.name, ck, repr(sorted(vals_brief(r).items()))))
         if len(ctx.samples) < 6 and nontriv and r.why != "baked":
             ctx.sample(dict(op=o.name, config=r.inst.cfg, flavor=r.flavor, values=vals_brief(r), result=str(got[0][1])[:120], reference=str(exp)[:120]))
-    # the builds of the same program, line by line
+    # the builds of the same program, record by record (normalised results: cells the library leaves unspecified,
+    # e.g. the shape next to success=false, are not compared)
     nflav = 0
     for key, lst in by_case.items():
         if len(lst) < 2:
             continue
         nflav += 1
-        f0, t0, r0 = lst[0]
-        for f1, t1, r1 in lst[1:]:
-            a, b = strip_static(t0), strip_static(t1)
-            if a != b:
+        f0, g0, r0 = lst[0]
+        for f1, g1, r1 in lst[1:]:
+            if any(not same_result(a[1], b[1]) and not (a[1][0] == "A" and b[1][0] == "A" and a[1][2] is None and b[1][2] is None) for a, b in zip(g0, g1)):
                 o = r0.g.op
                 ctx.violation("%s:%s:flavors_differ" % (o.name, G.cfg_class(r0.inst.cfg)),
-                              "%s(%s) configuration %s: build %s prints %s, build %s prints %s" % (o.name, vals_brief(r0), r0.inst.cfg, f0, " ".join(a)[:150], f1, " ".join(b)[:150]),
+                              "%s(%s) configuration %s: build %s gives %s, build %s gives %s" % (o.name, vals_brief(r0), r0.inst.cfg, f0, str(g0)[:150], f1, str(g1)[:150]),
                               dict(program=r0.prog, instance=r0.inst.name, case=r0.line))
     return dict(matrix=matrix, records=nrec, cross_build_comparisons=nflav, invalid_without_failure_channel=unchecked)
 
@@ -587,7 +618,7 @@ def judge_c11(ctx, recs, info):
         ck = G.cfg_kinds(r.inst.cfg)
         cc = G.cfg_class(r.inst.cfg)
         det = dict(program=r.prog, flavor=r.flavor, instance=r.inst.name, config=r.inst.cfg, values=vals_brief(r), case=r.line)
-        if r.crash is not None or r.toks is None or r.toks[0] == "EXC":
+        if r.crash is not None or r.toks is None or (has_exc(r.toks) and o.family == "view"):
             # crashes are C09/C02 material; here only static knowledge is judged
             continue
         exp = expected_of(r)
@@ -626,7 +657,8 @@ def judge_c11(ctx, recs, info):
                     continue
                 ctx.ev()
                 res, tr = p
-                ntraits += check_index_traits(ctx, o, cc, r, normalise(o, res), tr, exp, det)
+                res = ("N",) if res[0] == "EXC" else normalise(o, res)
+                ntraits += check_index_traits(ctx, o, cc, r, res, tr, exp, det)
                 m = matrix.setdefault(o.name, {})
                 m[ck] = m.get(ck, 0) + 1
                 types_seen.setdefault("%s:result" % o.name, set()).add((ck, tr["kind"]))
